@@ -103,6 +103,7 @@ def model (arg : String) : String :=
         | .error .notFound => go b rest (acc ++ "exc:notfound" ++ stateStr b ++ " ; ")
         | .error .offsetTooBig => go b rest (acc ++ "exc:offset" ++ stateStr b ++ " ; ")
         | .error .noFit => go b rest (acc ++ "exc:nofit" ++ stateStr b ++ " ; ")
+        | .error .tooLong => go b rest (acc ++ "exc:toolong" ++ stateStr b ++ " ; ")
         | .error .hang => "timeout"
         | .error _ => "crash"
     go (Bank.new m bk) ops ""
@@ -167,12 +168,12 @@ def expectOf : Op → Expect
     match specArgs args with
     | none => .unknown
     | some (r, off) =>
-      if frames = 0 then .exc "notfound" true   -- an empty data chunk is rejected as unreadable; accepted as a diagnosis
-      else if off > frames then .exc "offset" false
+      if off > frames then .exc "offset" false
       else
         let p := pcmOf bits ch rate frames seed
         .ok (p.wanted off) (r.getD rate) (if off = 0 then some (p.wanted 0) else none)
   | .rawAdd h d =>
+    if h.size > d.length then .exc "toolong" false else
     .ok ((d.drop h.start).take h.size) h.rate (if h.start = 0 ∧ h.size = d.length ∧ h.loopStart = 0 then some d else none)
 
 structure JState where
